@@ -344,6 +344,7 @@ func (p *parser) parseBitTiming() (*BitTiming, error) {
 	if p.foundBitTim {
 		return nil, p.errorf("duplicated bit timing")
 	}
+	p.foundBitTim = true
 
 	bt := new(BitTiming)
 	bt.withLocation.loc = p.getLocation()
@@ -1329,21 +1330,24 @@ func (p *parser) parseAttribute() (*Attribute, error) {
 
 	case keywordAttributeEnum:
 		att.Type = AttributeEnum
+
+		// the list of values can be empty
 		t = p.scan()
 		if !t.isString() {
-			return nil, p.errorf("expected enum attribute values")
-		}
-		att.EnumValues = append(att.EnumValues, t.value)
-		for {
-			if !p.scan().isPunct(punctComma) {
-				p.unscan()
-				break
-			}
-			t = p.scan()
-			if !t.isString() {
-				return nil, p.errorf("expected enum attribute values")
-			}
+			p.unscan()
+		} else {
 			att.EnumValues = append(att.EnumValues, t.value)
+			for {
+				if !p.scan().isPunct(punctComma) {
+					p.unscan()
+					break
+				}
+				t = p.scan()
+				if !t.isString() {
+					return nil, p.errorf("expected enum attribute values")
+				}
+				att.EnumValues = append(att.EnumValues, t.value)
+			}
 		}
 
 	default:
